@@ -276,8 +276,22 @@ func (self *Interpreter) infixHelper(lhs ast.AnalyzedExpression, rhs ast.Analyze
 		case pAst.MultiplyInfixOperator:
 			intRes = lhsInt.Inner * rhsInt.Inner
 		case pAst.DivideInfixOperator:
+			if rhsInt.Inner == 0 {
+				return nil, nil, value.NewRuntimeErr(
+					"Division by zero error: this is operation is illegal",
+					value.ValueErrorKind,
+					rhs.Span(),
+				)
+			}
 			intRes = lhsInt.Inner / rhsInt.Inner
 		case pAst.ModuloInfixOperator:
+			if rhsInt.Inner == 0 {
+				return nil, nil, value.NewRuntimeErr(
+					"Division by zero error: this is operation is illegal",
+					value.ValueErrorKind,
+					rhs.Span(),
+				)
+			}
 			intRes = lhsInt.Inner % rhsInt.Inner
 		case pAst.PowerInfixOperator:
 			intRes = int64(math.Pow(float64(lhsInt.Inner), float64(rhsInt.Inner)))
